@@ -30,11 +30,18 @@ def run_kani(repo, props, timeout=1500):
         ran, fails, built = [], [], True
         for h in names:
             t1 = time.time()
+            import signal
+            pr = subprocess.Popen(['cargo', 'kani', '--harness', h], cwd=dst, env=env, stdout=subprocess.PIPE, stderr=subprocess.STDOUT, text=True, start_new_session=True)
             try:
-                p = subprocess.run(['cargo', 'kani', '--harness', h], cwd=dst, env=env, stdout=subprocess.PIPE, stderr=subprocess.STDOUT, text=True, timeout=timeout)
-                out, rc = p.stdout, p.returncode
+                out, _ = pr.communicate(timeout=timeout)
+                rc = pr.returncode
             except subprocess.TimeoutExpired:
                 out, rc = 'TIMEOUT', -9
+            finally:
+                try:
+                    os.killpg(pr.pid, signal.SIGKILL)   # cbmc is a grandchild
+                except Exception:
+                    pass
             ok = 'VERIFICATION:- SUCCESSFUL' in out
             failed = 'VERIFICATION:- FAILED' in out
             m = re.search(r'\*\* (\d+) of (\d+) failed', out)
